@@ -562,9 +562,9 @@ func gen(seed uint64, tier string) {
 	out := bufio.NewWriter(os.Stdout)
 	defer out.Flush()
 	r := vproto.NewRng(seed)
-	nParam, nPos := 200, 40
+	nParam, nPos := 200, 120
 	if tier == "thorough" {
-		nParam, nPos = 400, 200
+		nParam, nPos = 600, 400
 	}
 	// fixed corpus: the definitions of proj_test.go/testData.json style and the design-time observations
 	wgs := crs{def: "+proj=longlat +datum=WGS84", tags: []string{"gW"}}
